@@ -52,6 +52,7 @@ def sbs(n, p, msl, M, growth, scorer, thr_scale, X=None, level=None):
         X = pd.DataFrame(np.zeros((n, p)))
     det.fit(X)
     y = det.predict(X)
+    core.emit("SeededBinarySegmentation", y, n=len(X), p=X.shape[1], msl=msl)
     cpts = [int(c) for c in y["ilocs"]]
     sc = det.scores
     rows = [(int(a), int(b), int(c), float(d)) for a, b, c, d in
